@@ -113,9 +113,17 @@ let is_stable cands (ins : M.Fol.pred list) (prog : M.Asp.program) (t : M.Eval.f
              is not a stable model of R + its input facts
    and symmetrically for the backward problems.  Stable models by brute force.
 
-   PUBLIC VOCABULARY (audit A4, finding F17 - repaired by /repo 70e6ace).  The behaviour of a program is
-   read on its own predicates and ALL public predicates of the user guide: an output predicate that
-   does not occur in a program is empty in every external stable model of it.  Until the repair the
+   VOCABULARY OF THE TASK (audit A4, finding F17 - repaired by /repo 70e6ace, refined by 18b2e85).  The
+   behaviour of a program is read on its own predicates, the input predicates and the output
+   predicates of the user guide that occur on SOME side of the task (= Proofs/C02Full.ext_voc): an
+   output predicate that does not occur in a program but on the other side is empty in every
+   external stable model of it (F17 stays detected: the t17 witness in the corpus).  An output
+   predicate that occurs on NEITHER side is outside the vocabulary of both sides - since 18b2e85 no
+   emitted formula mentions it, M refutes a problem whatever extent it gives to it, and M is cut to
+   the vocabulary before the stable-model test; the window of ground atoms still ranges over such
+   predicates, so these M are tried.  (With such a predicate in the vocabulary the test reports
+   e.g. `r. out2 :- r.` vs the empty program, `output: out/1. output: out2/0.`, M = {r, out(sup)}:
+   backward_problem refuted, M stable on neither side.)  Until the repair the
    regular op excused exactly that class (an output predicate missing from a program was left out
    of THAT program's vocabulary) and the strict variant `sem_c02_behaviour_outputs` replayed the
    recorded finding.  Now the side that lacks an output predicate carries its empty completed
@@ -187,7 +195,8 @@ let sem_c02_behaviour ~(strict_symbols : bool) (e : Sexp.t) : Sexp.t =
              let cands = M.Eval.w_general w in
              let in_voc (voc : pred list) (name, args) =
                List.exists (fun (q : pred) -> q.psym = name && Conv.int_of_nat q.parity = List.length args) voc in
-             let outs = M.External.ug_output_predicates ug in
+             let occurring = M.External.task_occurring_predicates t in
+             let outs = List.filter (fun q -> List.mem q occurring) (M.External.ug_output_predicates ug) in
              let voc_of (prog : M.Asp.program) =
                let ps = M.Asp.program_preds prog in
                uniq (ps @ ins @ outs) in
